@@ -1477,7 +1477,12 @@ fn main() {
             let seed: u64 = args.get(2).and_then(|s| s.parse().ok()).unwrap_or(1);
             let thorough = args.get(3).map(|s| s == "thorough").unwrap_or(false);
             // parse errors of rejected inputs are results, not noise
-            std::panic::set_hook(Box::new(|_| {}));
+            let trace = std::env::var_os("C09_PANIC_TRACE").is_some();
+            std::panic::set_hook(Box::new(move |i| {
+                if trace {
+                    eprintln!("{i}");
+                }
+            }));
             run(seed, thorough).emit();
         }
         Some("replay") => {
